@@ -45,8 +45,11 @@ if [ $base_rc -eq 0 ] && [ $mut_rc -ne 0 ] && [ $build_rc -eq 0 ] && [ $test_rc 
 say "CONFIRMED=$confirmed"
 say "== applying to /repo and running check $CP"
 cd /repo
-if ! git apply --check $D/patch.diff 2>>$LOG; then say "patch does not apply to /repo HEAD (repo has moved: fixes/hooks) -> trying 3-way"; fi
-git apply -3 $D/patch.diff >> $LOG 2>&1 || { say "APPLY-TO-REPO FAILED"; git checkout -q -- . ; exit 3; }
+if [ -n "$(git status --porcelain)" ]; then say "/repo is not clean: refusing"; exit 3; fi
+PATCH=$D/patch.diff
+if [ -f $D/patch_head.diff ]; then PATCH=$D/patch_head.diff; say "using patch_head.diff (same change adapted to /repo HEAD)"; fi
+if ! git apply --check $PATCH 2>>$LOG; then say "patch does not apply to /repo HEAD (repo has moved: fixes/hooks) -> trying 3-way"; fi
+git apply -3 $PATCH >> $LOG 2>&1 || { say "APPLY-TO-REPO FAILED"; git reset -q --hard HEAD; exit 3; }
 git reset -q
 cd /verif
 out=$(bin/vcheck -prop $CP -no-evidence -replaydir /tmp/seed/$P/out/$K/replay 2>&1); rc=$?
